@@ -226,7 +226,7 @@ Section EmitKeeps.
   Variable P : hc -> Prop.
   Hypothesis P_rq : forall h rq, P h -> P (set_rq h rq).
   Hypothesis P_pq : forall h pq, P h -> P (set_pq h pq).
-  Hypothesis P_snd : forall h s, P h -> P (set_snd h s).
+  Hypothesis P_emit : forall h, P h -> P (set_snd h (fst (sender_emit_packet (h_snd h) (h_flush_id h)))).
   Hypothesis P_fin : forall e, P (es_h e) -> P (es_h (dfe_finalize e)).
   Hypothesis P_mark : forall e, P (es_h e) -> P (es_h (mark_rate_limited e)).
 
@@ -300,11 +300,12 @@ Section EmitKeeps.
       destruct r as [[|]|].
       - inversion E0; subst. exact Hc.
       - inversion E0; subst. apply P_fin. exact Hc.
-      - destruct (sender_emit_packet (h_snd (es_h e1)) (h_flush_id (es_h e1))) as [s' r].
+      - pose proof (P_emit (es_h e1) Hc) as Hem.
+        destruct (sender_emit_packet (h_snd (es_h e1)) (h_flush_id (es_h e1))) as [s' r]. cbn [fst] in Hem.
         destruct r as [[uid resend]|].
         + destruct (sender_lookup s' uid) as [we|]; [|discriminate]. inversion E0; subst.
-          unfold PE. cbn [es_h]. apply P_pq, P_snd. exact Hc.
-        + inversion E0; subst. unfold PE. cbn [es_h]. apply P_snd. exact Hc. }
+          unfold PE. cbn [es_h]. apply P_pq. exact Hem.
+        + inversion E0; subst. unfold PE. cbn [es_h]. exact Hem. }
     destruct fl2; try (inversion E; subst; exact H2).
     destruct (pending_inner _ e2) as [[e3 fl3]| |] eqn:E3; cbn [bind] in E; try discriminate.
     pose proof (g_inner _ _ _ _ E3 H2) as H3.
@@ -340,18 +341,18 @@ Proof.
   unfold hc_flush. intros E H.
   destruct (emit_ack_frames h []) as [[[h1 out1] ok1]| |] eqn:E1; cbn [bind] in E; try discriminate.
   assert (H1 : Q h1).
-  { destruct (emit_ack_frames_core _ _ _ _ _ E1) as (A & _ & C). revert H. apply Q_ext; [exact C|rewrite A; reflexivity]. }
+  { destruct (emit_ack_frames_core _ _ _ _ _ E1) as (A & _ & C & _). revert H. apply Q_ext; [exact C|rewrite A; reflexivity]. }
   destruct (negb ok1); [inversion E; subst; exact H1|].
   destruct (emit_data_frames (hc_flush_fuel h1) h1 out1) as [[[h2 out2] ok2]| |] eqn:E2; cbn [bind] in E; try discriminate.
   assert (H2 : Q h2).
   { revert H1. eapply (g_emit_data Q); try eassumption.
     - intros h0 rq. apply Q_ext; reflexivity.
     - intros h0 pq. apply Q_ext; reflexivity.
-    - intros h0 s. apply Q_ext; reflexivity.
+    - intros h0. apply Q_ext; reflexivity.
     - apply Q_fin.
     - intros e. apply Q_ext; reflexivity. }
   destruct (negb ok2); [inversion E; subst; exact H2|].
-  destruct (emit_sync_frame_core h2 out2) as (A & _ & C).
+  destruct (emit_sync_frame_core h2 out2) as (A & _ & C & _).
   destruct (emit_sync_frame h2 out2) as [[h3 out3] ok3]. cbn [fst] in A, C. inversion E; subst.
   revert H2. apply Q_ext; [exact C|rewrite A; reflexivity].
 Qed.
